@@ -4,7 +4,7 @@ ENGINES = [
     {
         "name": "symx",
         "path": "/verif/symx",
-        "serves_properties": ["C03", "C04", "C07", "C08", "C13", "C16", "C17", "C18"],
+        "serves_properties": ["C03", "C04", "C06", "C07", "C08", "C13", "C16", "C17", "C18"],
         "kind_free_text": "own symbolic executor: geoh5py's real functions run under CPython with the module-global "
         "`np` (and, for file paths, `h5py`) rebound to z3-backed models; re-execution DFS forks on symbolic "
         "branches; obligations are z3 validity queries; counterexamples are replayed on real numpy/h5py",
@@ -12,7 +12,7 @@ ENGINES = [
     {
         "name": "xh",
         "path": "/verif/xh",
-        "serves_properties": ["C14", "C15"],
+        "serves_properties": ["C06", "C14", "C15"],
         "kind_free_text": "CrossHair 0.0.110 (symbolic execution of Python with z3) over generated PEP-316 harness "
         "functions that call the real pure-Python kernels",
     },
@@ -170,6 +170,19 @@ CLAIMED["C14"] = _xh(
     "paths, drillhole-group data and range forms are outside the claim.",
 )
 
+CLAIMED["C06"] = {
+    "engine": "xh+symx",
+    "technique": "CrossHair symbolic execution of the weak-reference registry helpers against executable specifications; "
+    "symx path exploration (z3 feasibility, symbolic kinds and flags) of the real Workspace create / copy / register code",
+    "level_text": "bounded symbolic model checking, kernel level: insert_once / get_clean_ref / remove_none_referents are confirmed "
+    "over all registries of <=3 entries (raise iff live owner, refused insert changes nothing, dead referents never returned); "
+    "at workspace level every combination of entity kind, same/free identifier, same/other workspace, occupied identifier, "
+    "with data / property group is one explored path of the real code: reuse inside a registry is refused, lookup returns the "
+    "owner, same-workspace copies get fresh identifiers, cross-workspace copies keep free ones, one type per class.",
+    "level_note": _XH_NOTE + "; the workspace-level part runs the real Workspace on real h5py and only the switches are symbolic",
+    "design_ref": "DESIGN.md section 5, C06",
+}
+
 _NOT_BUILT = "check not built yet (planned, see DESIGN.md section 5)"
 
 NOT_APPLICABLE = {
@@ -189,5 +202,4 @@ NOT_APPLICABLE = {
     "C19": "single-fault enumeration over links/attributes of real HDF5 files read by h5py: fault injection, nothing symbolic",
     "C20": "partner linkage is identity bookkeeping in metadata dictionaries persisted as JSON; configurations x "
     "histories over an object graph, no value-level kernel",
-    "C06": _NOT_BUILT,
 }
